@@ -262,6 +262,12 @@ fn cmd_class(cmd: &[Bytes]) -> String {
 
 /// all (history, command) cases of a spec whose index is congruent to part mod parts
 fn differential(spec: &str, depth: usize, part: u64, parts: u64, forms: &[&str], io: &mut WorkerIo) -> Value {
+    differential_filtered(spec, depth, part, parts, forms, &[], io)
+}
+
+/// `deepest_only`: at the states reached by histories of the full depth only these commands are compared (the others
+/// were compared at the shallower states already); empty = no restriction
+fn differential_filtered(spec: &str, depth: usize, part: u64, parts: u64, forms: &[&str], deepest_only: &[&str], io: &mut WorkerIo) -> Value {
     let mut w = match world_for(spec) {
         Some(w) => w,
         None => return json!({"errors": [format!("unknown spec {}", spec)]}),
@@ -286,7 +292,13 @@ fn differential(spec: &str, depth: usize, part: u64, parts: u64, forms: &[&str],
     }
     let mut seen_states: BTreeSet<u128> = BTreeSet::new();
     let mut index = 0u64;
-    for h in hists.iter() {
+    // deep enumerations are split by history (every part replaying every history just to find its share of the
+    // commands costs more than the comparisons themselves), shallow ones by (history, command)
+    let by_history = depth >= 3;
+    for (hi, h) in hists.iter().enumerate() {
+        if by_history && (hi as u64) % parts != part {
+            continue;
+        }
         // the menu at this state (and skip histories that lead to a state already handled by this worker part)
         let menu = {
             if let Err(e) = w.reset() {
@@ -312,7 +324,7 @@ fn differential(spec: &str, depth: usize, part: u64, parts: u64, forms: &[&str],
         };
         for cmd in menu.iter() {
             index += 1;
-            if index % parts != part {
+            if !by_history && index % parts != part {
                 continue;
             }
             if cases % 64 == 0 {
@@ -321,6 +333,9 @@ fn differential(spec: &str, depth: usize, part: u64, parts: u64, forms: &[&str],
             let name = String::from_utf8_lossy(&cmd[0]).to_uppercase();
             if matches!(name.as_str(), "EVAL" | "EVALSHA" | "SCRIPT" | "MULTI" | "EXEC" | "DISCARD" | "WATCH" | "UNWATCH" | "SELECT" | "BLPOP" | "BRPOP") {
                 continue; // not data-type commands: forbidden inside scripts (checked in the contract probes)
+            }
+            if !deepest_only.is_empty() && h.len() == depth && !deepest_only.contains(&name.as_str()) {
+                continue;
             }
             cases += 1;
             let direct = match run_once(&mut w, h, cmd, None) {
@@ -1017,7 +1032,9 @@ pub fn handle_factory() -> impl FnMut(&str, &Value, &mut WorkerIo) -> (Value, bo
             "diff" => {
                 let forms: Vec<&str> = task["forms"].as_array().map(|a| a.iter().filter_map(|x| x.as_str()).collect()).unwrap_or_else(|| FORMS.to_vec());
                 let forms: Vec<&str> = FORMS.iter().cloned().filter(|f| forms.contains(f)).collect();
-                let v = differential(task["spec"].as_str().unwrap_or(""), task["depth"].as_u64().unwrap_or(0) as usize, task["part"].as_u64().unwrap_or(0), task["parts"].as_u64().unwrap_or(1), &forms, io);
+                let only: Vec<String> = task["deepest_only"].as_array().map(|a| a.iter().filter_map(|x| x.as_str().map(|s| s.to_string())).collect()).unwrap_or_default();
+                let only_ref: Vec<&str> = only.iter().map(|s| s.as_str()).collect();
+                let v = differential_filtered(task["spec"].as_str().unwrap_or(""), task["depth"].as_u64().unwrap_or(0) as usize, task["part"].as_u64().unwrap_or(0), task["parts"].as_u64().unwrap_or(1), &forms, &only_ref, io);
                 (v, true)
             }
             "contracts" => {
@@ -1070,10 +1087,11 @@ pub fn parent(tier: &str) -> i32 {
         }
     }
     if !thorough {
-        // consumer groups need a stream and a group before anything happens: depth 2, redis.call only (the executor
+        // consumer groups need a stream, a group and a delivery before anything shows: depth 3 (at the deepest states only the
+        // commands that look at the pending lists), redis.call only (the executor
         // dropping XCLAIM's FORCE / JUSTID showed only behind XADD + XGROUP CREATE, i.e. in the thorough tier)
         for part in 0..32u64 {
-            tasks.push(json!({"kind": "diff", "spec": "c16-core", "depth": 2, "part": part, "parts": 32, "forms": ["call"], "thorough": thorough}));
+            tasks.push(json!({"kind": "diff", "spec": "c16-core", "depth": 3, "part": part, "parts": 32, "forms": ["call"], "deepest_only": ["XPENDING", "XINFO", "XCLAIM", "XAUTOCLAIM", "XACK"], "thorough": thorough}));
         }
         // redis.pcall on the empty dataset for every alphabet in the quick tier
         for spec in specs.iter() {
